@@ -50,7 +50,7 @@ typedef struct cth {
 struct htask { int id; };
 int c20_task_id(void *arg) { return arg ? ((struct htask*) arg)->id : -1; }
 
-#define MAXW 64
+#define MAXW 16384
 #define MAXC 16
 static __thread cth *me;
 static sem_t sched_sem;
@@ -62,6 +62,7 @@ static struct iwtp *g_tp;
 static pthread_mutex_t *volatile exec_mtx;
 static pthread_cond_t *volatile cond_w, *volatile cond_q;
 static volatile int exec_freed;
+static volatile int exec_ready;          // free mode: executor threads wait for this before they start
 static cth *workers[MAXW];
 static volatile int nworkers;
 static cth *clients[MAXC];
@@ -202,7 +203,7 @@ int __wrap_pthread_cond_broadcast(pthread_cond_t *c) {
 int __wrap_pthread_cond_signal(pthread_cond_t *c) {
   if (me && (c == cond_w || c == cond_q)) {
     if (ctl_active) {
-      cth *w[MAXW + MAXC];
+      static cth *w[MAXW + MAXC];
       int n = 0;
       for (int i = 0; i < nworkers; ++i) {
         if (workers[i]->status == ST_WAIT && workers[i]->wc == c && !workers[i]->signalled) w[n++] = workers[i];
@@ -230,6 +231,8 @@ static void* tramp(void *op) {
   if (ctl_active) {
     while (sem_wait(&c->go) && errno == EINTR);
     c->status = ST_RUN;
+  } else {
+    while (!__atomic_load_n(&exec_ready, __ATOMIC_ACQUIRE)) sched_yield();
   }
   void *r = c->fn(c->arg);
   if (ctl_active) {
@@ -460,7 +463,7 @@ static void do_call_op(int i, int cmd, int task, int wait) {
 // waiting shutdown from the first idle client (unless one was requested already), then run the first enabled thread until none is left
 static void do_finish(void) {
   if (!exec_kind) return;
-  cth *en[MAXW + MAXC];
+  static cth *en[MAXW + MAXC];
   for (int round = 0; round < 2; ++round) {
     // first round: let every call that is under way complete; second round: waiting shutdown from the first idle client
     if (round == 1 && !shutdown_flag()) {
@@ -523,6 +526,7 @@ static void teardown(void) {
 
 static int start_exec(int kind, int a, int b, int c) {
   intercept_create = 1;
+  __atomic_store_n(&exec_ready, 0, __ATOMIC_RELEASE);
   iwrc rc;
   if (kind == 1) {
     rc = iwstw_start("c20", a, b, &g_stw);
@@ -545,6 +549,7 @@ static int start_exec(int kind, int a, int b, int c) {
   if (rc) return -1;
   exec_kind = kind;
   exec_freed = 0;
+  __atomic_store_n(&exec_ready, 1, __ATOMIC_RELEASE);
   return 0;
 }
 
@@ -605,7 +610,7 @@ int main(int argc, char **argv) {
       snprintf(pre, sizeof(pre), "%c%d: ", w[1][0], idx);
       flush_line(pre);
     } else if (!strcmp(w[0], "pick") && n == 3) {
-      cth *en[MAXW + MAXC];
+      static cth *en[MAXW + MAXC];
       int ne = list_enabled(en);
       if (!ne) { printf("none | "); print_state(); continue; }
       cth *t = en[strtoul(w[1], 0, 10) % ne];
@@ -616,7 +621,7 @@ int main(int argc, char **argv) {
       do_finish();
       flush_line("finish: ");
     } else if (!strcmp(w[0], "quiesce") && n == 1) {
-      cth *en[MAXW + MAXC];
+      static cth *en[MAXW + MAXC];
       for (int fuel = 0; fuel < 200000; ++fuel) {
         if (!list_enabled(en)) break;
         step_thread(en[0], 0);
